@@ -1,9 +1,17 @@
 #!/bin/sh
-# Offline setup: build the Lean library + model driver and the Rust harness from files on disk.
+# Offline setup: build the Lean library modules of every claimed property, the model drivers and
+# the Rust harness / translator crates from files on disk only.
 set -e
 cd "$(dirname "$0")"
 export CARGO_NET_OFFLINE=true
-(cd lean && lake build GcArena gcmodel)
-[ -f harness/Cargo.lock ] || cp /repo/Cargo.lock harness/Cargo.lock
-(cd harness && cargo build --offline && cargo build --offline --release)
+PROPS=$(python3 -c "import json;print(' '.join('GcArena.Props.'+c['property_id'] for c in json.load(open('MANIFEST.json'))['checks']))")
+EXES=$(grep -A1 '^\[\[lean_exe\]\]' lean/lakefile.toml | grep '^name' | sed 's/name = "\(.*\)"/\1/' | tr '\n' ' ')
+(cd lean && lake build $EXES $PROPS)
+for d in harness extract_brand extract harness_layout harness_collect; do
+  if [ -f "$d/Cargo.toml" ]; then
+    [ -f "$d/Cargo.lock" ] || cp /repo/Cargo.lock "$d/Cargo.lock"
+    (cd "$d" && cargo build --offline) || echo "setup: building $d failed (its check will report it)"
+  fi
+done
+(cd harness && cargo build --offline --release)
 echo setup-ok
